@@ -167,6 +167,47 @@ def split_oracles(case, w, data, aff, dim):
     return pieces, fails
 
 
+def data_alias_probe(case, dim):
+    """C13 at image level: the voxel arrays of the pieces of a split share nothing with the parent's —
+    writing into a piece leaves the parent's voxels as they were, and writing into the parent leaves
+    the pieces as they were.  Works on a wrapper of its own (in-memory data only)."""
+    fails = []
+    if case.get('data_kind') == 'scaled_file':
+        return fails
+    try:
+        w2, data2, _ = build_wrapper(case)
+        pieces = list(w2.split(dim))
+    except Exception:
+        return fails
+    parent_before = np.array(np.asanyarray(w2.nii_img.dataobj), copy=True)
+    saved = []
+    for p in pieces:
+        arr = np.asanyarray(p.nii_img.dataobj)
+        saved.append(np.array(arr, copy=True))
+    for p in pieces:
+        arr = np.asanyarray(p.nii_img.dataobj)
+        try:
+            arr[...] = -7
+        except Exception:
+            return fails            # read-only data: nothing can be written through it
+    if not np.array_equal(np.asanyarray(w2.nii_img.dataobj), parent_before):
+        fails.append('writing into the voxel data of the pieces of split(%d) changed the voxel data of the image that was split' % dim)
+        return fails
+    # other direction, on a fresh wrapper
+    w3, _, _ = build_wrapper(case)
+    pieces3 = list(w3.split(dim))
+    before3 = [np.array(np.asanyarray(p.nii_img.dataobj), copy=True) for p in pieces3]
+    try:
+        np.asanyarray(w3.nii_img.dataobj)[...] = -9
+    except Exception:
+        return fails
+    for i, (p, b) in enumerate(zip(pieces3, before3)):
+        if not np.array_equal(np.asanyarray(p.nii_img.dataobj), b):
+            fails.append('writing into the voxel data of the split image changed piece %d of split(%d) produced earlier' % (i, dim))
+            break
+    return fails
+
+
 def merge_back_oracles(case, w, data, aff, dim, pieces):
     from dcmstack.dcmmeta import NiftiWrapper
     fails = {'C05': [], 'C07': [], 'C13': [], 'C03': []}
@@ -350,6 +391,9 @@ def extend(rep, pid, tier, r):
             rep.nontriv([case, dim])
             rep.sample({'suite': 'wrapper', 'case': case, 'dim': dim}, cap=2)
             pieces, fs = split_oracles(case, w, data, aff, dim)
+            if pid == 'C13' and not case.get('hdr_kind'):
+                fs.setdefault('C13', [])
+                fs['C13'] += data_alias_probe(case, dim)
             fm = {}
             if pieces is not None and len(pieces) == shape[dim] and shape[dim] >= 1 and \
                     (dim == case['sd'] or dim >= 3):
